@@ -793,7 +793,7 @@ def correspondence_arc(ctx, dist, descs):
 
 # ----------------------------------------------------------------------------------------------------------
 def run(ctx):
-    ctx.prove(props=["C09", "C09_arc"])
+    ctx.prove(props=["C09", "C09_arc", "C09_wrappers"])
     dist = collections.Counter()
     reported = set()
     sweep_instances(ctx, dist, reported)
@@ -807,6 +807,9 @@ def run(ctx):
     correspondence_seq(ctx, dist, descs)
     correspondence_arc(ctx, dist, descs)
     ctx.cov["input_distribution"] = dict(sorted(dist.items()))
+    # the MIRP wrappers (grid, vehicle count, sequence length, high cost): exact correspondence + oracle
+    from props import c09_wrap
+    c09_wrap.run_part(ctx)
     ctx.cov["rule"] = ("evaluations = make_feasible invocations on the real objects whose outcome was checked against the property's "
                        "predicate; non-trivial = distinct small instance on which the heuristic had to repair the problem (nodes / arcs / "
                        "vehicles added) or MIRP instance (integer costs) on which it returned normally")
@@ -816,6 +819,7 @@ def run(ctx):
     if ctx.tier == "thorough":
         ctx.coqchk("VQP.C09")
         ctx.coqchk("VQP.C09_arc")
+        ctx.coqchk("VQP.C09_wrappers")
 
 
 def replay(ctx, data):
